@@ -89,7 +89,7 @@ fn shape(n: usize, r: u64) -> (usize, usize) {
 fn run_xyb(ctx: &Ctx, roundtrip: bool) {
     let prop = if roundtrip { "C05" } else { "C04" };
     let total: u64 = ctx.arg_u64("pixels").unwrap_or(if ctx.flag("lite") { 1 << 21 } else { ctx.pick(1 << 24, 1 << 30) });
-    let distinct = Distinct::new(ctx.pick(27, 32));
+    let distinct = Distinct::new(ctx.pick(29, 33));
     let worst = Mutex::new(Worst::<([f32; 3], usize, f32, f64)>::new());
     let per_stratum: Vec<AtomicU64> = (0..8).map(|_| AtomicU64::new(0)).collect();
     let clamped = AtomicU64::new(0);
@@ -343,7 +343,7 @@ pub fn c09(ctx: &Ctx) {
             }
         }
     }
-    let ncol: usize = ctx.arg_u64("colors").unwrap_or(ctx.pick(416, 16_384)) as usize;
+    let ncol: usize = ctx.arg_u64("colors").unwrap_or(if ctx.flag("lite") { 130 } else { ctx.pick(1040, 16_384) }) as usize;
     let worst_by_tn: Mutex<std::collections::BTreeMap<(String, u8), f64>> = Mutex::new(Default::default());
     let gworst = Mutex::new(Worst::<C9At>::new());
     let evals = AtomicU64::new(0);
